@@ -230,6 +230,9 @@ func (w *inotify) AddWith(path string, opts ...addOpt) error {
 
 	w.mu.Lock()
 	defer w.mu.Unlock()
+	if w.isClosed() { // Close() may have been called while we waited for the lock.
+		return ErrClosed
+	}
 	path, recurse := recursivePath(path)
 	if recurse {
 		return filepath.WalkDir(path, func(root string, d fs.DirEntry, err error) error {
@@ -307,6 +310,9 @@ func (w *inotify) Remove(name string) error {
 
 	w.mu.Lock()
 	defer w.mu.Unlock()
+	if w.isClosed() { // Close() may have been called while we waited for the lock.
+		return nil
+	}
 	return w.remove(filepath.Clean(name))
 }
 
